@@ -68,11 +68,13 @@ class Accum:
         self.traces = set()
         self.viol = {}
         self.per = {}
+        self.per_ok = {}
         self.samples = []
 
     def run(self, key, modname, funcname, args, pop, cap=5000, classify=None):
         res = par.run(worker, (modname, funcname, tuple(args), tuple(pop), cap, classify))
         self.per[key] = sum(r['programs'] for r in res)
+        self.per_ok[key] = sum(r['ok'] for r in res)
         popname = 'pop=' + ','.join('%s/%s/%s/%s' % (d.label, d.group, d.location, d.kind) for d in pop)
         for r in res:
             for k in self.tot:
@@ -90,6 +92,8 @@ class Accum:
                         cur[1:] = [text, detail, key, popname, pop]
 
     def report(self, rep, rule, extra=None):
+        for key, n in self.per.items():
+            assert n > 0, 'harness: part %s enumerated nothing' % key
         for sig, (cnt, text, detail, key, popname, pop) in sorted(self.viol.items()):
             rep.violation(sig, '%s in %s (%d programs), e.g. `%s` -> %s' % (sig, key, cnt, text, detail),
                           {'script': text, 'population': [list(d) for d in pop], 'detail': detail,
@@ -100,6 +104,7 @@ class Accum:
             'traces_validated_against_impl': t['ok'], 'evaluations': t['programs'],
             'distinct_nontrivial': len(self.traces), 'rule': rule, 'exhaustive': True,
             'programs_per_part': self.per,
+            'programs_agreeing_with_reference_per_part': self.per_ok,
             'reference_undefined_skipped': t['undefined'],
             'reference_step_cap_skipped': t['refcap'],
             'samples': self.samples or ['(none)'],
